@@ -289,6 +289,9 @@ pub struct TxSpec {
     pub scripts: Vec<(Prog, Slot, u8)>, // program, slot, salt
     /// add a TYPE_ID type script (one input cell, one output cell)
     pub type_id: bool,
+    /// 0 = none; 1..=3: a type script whose code_hash is the TYPE_ID constant but whose hash_type is data / data1 / data2:
+    /// an ordinary script that resolves to no cell (ScriptNotFound) in every mode of execution
+    pub fake_type_id: u8,
 }
 
 fn hash_type(ver: u8) -> ScriptHashType {
@@ -401,6 +404,24 @@ pub fn build_rtx(spec: &TxSpec) -> Arc<ResolvedTransaction> {
             .capacity(Capacity::bytes(990).unwrap())
             .lock(null_lock.clone())
             .type_(Some(type_id_script))
+            .build();
+        tb = tb.output(out).output_data(Bytes::new());
+    }
+    if spec.fake_type_id > 0 {
+        need_always_success = true;
+        let mut a = [0u8; 32];
+        a[0] = 0x22;
+        a[1] = spec.fake_type_id;
+        let fake = Script::new_builder()
+            .args(Bytes::from(a.to_vec()))
+            .code_hash(TYPE_ID_CODE_HASH)
+            .hash_type(hash_type(spec.fake_type_id - 1))
+            .build();
+        tb = add_input(tb, null_lock.clone(), Some(fake.clone()), &mut resolved_inputs, &mut n_in);
+        let out = CellOutput::new_builder()
+            .capacity(Capacity::bytes(990).unwrap())
+            .lock(null_lock.clone())
+            .type_(Some(fake))
             .build();
         tb = tb.output(out).output_data(Bytes::new());
     }
